@@ -709,3 +709,140 @@ def engine_cq(tier, seed):
     if not res['errors']:
         cache_put(key, res)
     return res
+
+
+WAKEMT_CFG = """SPECIFICATION %(spec)s
+CONSTANTS
+    Wakers = %(wakers)s
+    WakesPer = %(wakes)d
+    MaxPolls = %(polls)d
+    Mode = "%(mode)s"
+    SQN = %(sqn)d
+    Fill = %(fill)d
+    Dev = %(dev)s
+INVARIANTS
+    TypeOK
+    NoLostWake
+    DroppedHarmless
+    PollingBit
+%(props)s
+CHECK_DEADLOCK FALSE
+"""
+
+TRACE_WAKEMT_CFG = """SPECIFICATION TraceSpec
+CONSTANTS
+    Wakers = %(wakers)s
+    WakesPer = %(wakes)d
+    MaxPolls = %(polls)d
+    Mode = "%(mode)s"
+    SQN = %(sqn)d
+    Fill = %(fill)d
+    Dev = {}
+INVARIANTS
+    TraceInvariants
+    NotAtEnd
+CHECK_DEADLOCK FALSE
+"""
+
+
+def engine_wake(tier, seed):
+    """C11: the PollingState handshake (WakeMT.tla: safety and, under fairness,
+    liveness, for default / kernel-thread / single-issuer rings), the real
+    Ring::poll(None) and SubmissionQueue::wake under every schedule with a
+    bounded number of preemptions, and TLC validation of the recorded runs."""
+    key = 'wake-%s-%s-%d' % (tier, tree_hash(), seed)
+    cached = cache_get(key)
+    if cached:
+        cached['cached'] = True
+        return cached
+    t0 = time.time()
+    res = {'engine': 'wake', 'tier': tier, 'tlc': [], 'replays': [], 'divergences': [], 'errors': [], 'samples': [],
+           'cached': False}
+    bindir = build_harness()
+    binary = os.path.join(bindir, 'sched_wake')
+    n = 0
+    for mode in ('default', 'sqpoll', 'single'):
+        for polls in (0, 2 if tier == 'quick' else 3):
+            for fill in ((0, 2) if tier == 'quick' else (0, 1, 2)):
+                m = dict(wakers='{1, 2}' if tier == 'quick' else '{1, 2, 3}', wakes=2, polls=polls, mode=mode, sqn=2, fill=fill,
+                         spec='FairSpec' if polls == 0 else 'Spec', props='PROPERTIES\n    Served' if polls == 0 else '')
+                cfg = write_cfg('wakemt_%d' % n, WAKEMT_CFG % dict(m, dev='{}'))
+                r = run_tlc('wakemt_%d' % n, 'MC_WakeMT', cfg, timeout=3000)
+                r['purpose'] = 'contract (%s): %s' % ('safety + liveness under weak fairness' if polls == 0 else 'safety, ring dropped after the polls',
+                                                       {k: m[k] for k in ('wakers', 'wakes', 'polls', 'mode', 'sqn', 'fill')})
+                res['tlc'].append(r)
+                if not r['ok']:
+                    res['errors'].append('TLC %s: %s' % (r['name'], r['violated'] or r['error']))
+                n += 1
+    for dev, mode in (('IgnoreAwoken', 'default'), ('SetOnlyIfPolling', 'default'), ('GiveUpWhenFull', 'sqpoll')):
+        m = dict(wakers='{1, 2}', wakes=2, polls=2, mode=mode, sqn=2, fill=2, spec='Spec', props='')
+        cfg = write_cfg('wakemt_dev_%s' % dev, WAKEMT_CFG % dict(m, dev='{"%s"}' % dev))
+        r = run_tlc('wakemt_dev_%s' % dev, 'MC_WakeMT', cfg, timeout=600)
+        r['purpose'] = 'sanity: deviation %s must violate NoLostWake' % dev
+        if not r['violated']:
+            res['errors'].append('WakeMT: deviation %s no longer violates any invariant (vacuous model?)' % dev)
+        r['ok'] = True
+        res['tlc'].append(r)
+    runs = [dict(mode='default', wakers=1, wakes=1, polls=2, sqn=2, drop=0, pre=2),
+            dict(mode='sqpoll', wakers=1, wakes=1, polls=2, sqn=2, drop=0, pre=2),
+            dict(mode='single', wakers=1, wakes=1, polls=2, sqn=2, drop=0, pre=2),
+            dict(mode='default', wakers=2, wakes=1, polls=3, sqn=1, drop=0, pre=2),
+            dict(mode='sqpoll', wakers=2, wakes=1, polls=2, sqn=1, drop=0, pre=1),
+            dict(mode='single', wakers=2, wakes=2, polls=2, sqn=1, drop=1, pre=2),
+            dict(mode='default', wakers=1, wakes=2, polls=1, sqn=2, drop=1, pre=2),
+            dict(mode='sqpoll', wakers=1, wakes=1, polls=2, sqn=2, drop=0, pre=2, fill=2),
+            dict(mode='default', wakers=2, wakes=1, polls=2, sqn=1, drop=0, pre=2, fill=1),
+            dict(mode='sqpoll', wakers=2, wakes=1, polls=2, sqn=1, drop=0, pre=1, fill=1)]
+    if tier == 'thorough':
+        runs += [dict(mode='default', wakers=1, wakes=2, polls=3, sqn=2, drop=0, pre=3),
+                 dict(mode='sqpoll', wakers=2, wakes=1, polls=3, sqn=1, drop=0, pre=2),
+                 dict(mode='single', wakers=1, wakes=2, polls=3, sqn=2, drop=0, pre=3),
+                 dict(mode='default', wakers=2, wakes=2, polls=3, sqn=1, drop=1, pre=2),
+                 dict(mode='sqpoll', wakers=2, wakes=2, polls=3, sqn=2, drop=0, pre=1, fill=2),
+                 dict(mode='default', wakers=2, wakes=2, polls=4, sqn=2, drop=0, pre=0, random=20000)]
+    for i, rn in enumerate(runs):
+        outdir = os.path.join(BUILD, 'replay', 'wake_%d' % i)
+        trace_path = os.path.join(outdir, 'traces.jsonl')
+        args = ['--mode', rn['mode'], '--wakers', str(rn['wakers']), '--wakes', str(rn['wakes']), '--polls', str(rn['polls']),
+                '--sqn', str(rn['sqn']), '--drop', str(rn['drop']), '--fill', str(rn.get('fill', 0)), '--preemptions', str(rn['pre']),
+                '--max-exec', str(100000 if tier == 'quick' else 2000000), '--random', str(rn.get('random', 0)),
+                '--seed', str(seed + 1), '--trace-out', trace_path]
+        rc, recs, summary, err = sched_run(binary, args, outdir, 'C11', 'WakeMT')
+        if summary is None:
+            res['errors'].append('sched_wake run %d died (rc %s): %s' % (i, rc, err))
+            continue
+        res['divergences'] += recs
+        res['replays'].append({'model': 'WakeMT/real Ring::poll(None) and SubmissionQueue::wake under the baton scheduler',
+                               'variant': json.dumps(rn), 'paths': summary['paths'], 'steps': summary['steps'],
+                               'diverged_paths': summary['diverged_paths'], 'schedule_space_exhausted': summary.get('complete'),
+                               'runs_ending_with_the_poller_blocked_and_nothing_owed': summary.get('ended_with_poller_blocked'), 'crashes': 0})
+        if os.path.exists(trace_path) and not recs:
+            nd = os.path.join(outdir, 'trace.ndjson')
+            nev = ntr = 0
+            with open(nd, 'w') as f:
+                for line in open(trace_path):
+                    for ev in json.loads(line):
+                        f.write(json.dumps(ev) + '\n')
+                        nev += 1
+                    f.write(json.dumps({'ev': 'Reset', 'th': 0, 'a': 0, 'b': 0}) + '\n')
+                    ntr += 1
+            if ntr:
+                tv = run_trace_validation('trace_wakemt_%d' % i, 'Trace_WakeMT', TRACE_WAKEMT_CFG % dict(
+                    wakers='{1}' if rn['wakers'] == 1 else '{1, 2}', wakes=rn['wakes'], polls=rn['polls'], mode=rn['mode'], sqn=rn['sqn'], fill=rn.get('fill', 0)), nd)
+                tv['traces'] = ntr
+                tv['events'] = nev
+                res['tlc'].append(tv)
+                if not tv['accepted']:
+                    if tv['error']:
+                        res['errors'].append('trace validation failed to run: %s' % tv['error'])
+                    else:
+                        res['divergences'].append({'tag': 'C11', 'model': 'WakeMT', 'path': 0, 'step': 0,
+                                                   'field': 'recorded executions are not behaviours of WakeMT (TLC trace validation rejected %s)' % nd,
+                                                   'expected': 'accepted', 'observed': 'rejected', 'trace_file': nd})
+                if i == 0:
+                    res['samples'].append({'model': 'WakeMT', 'recorded_execution': json.loads(open(trace_path).readline())})
+    res['wall_s'] = round(time.time() - t0, 1)
+    res['divergences_total'] = len(res['divergences'])
+    if not res['errors']:
+        cache_put(key, res)
+    return res
